@@ -21,7 +21,9 @@ pub struct Case {
     pub indents: Vec<usize>,
 }
 
-const TEXT: [&str; 15] = ["a", "<", ">", "&", "\"", "'", " ", "\n", "\r", "\t", "]", "\u{10000}", "\u{85}", "\u{2028}", "&amp;"];
+// markup characters, white space, and the first/last character of every range of XML's Char production
+const TEXT: [&str; 19] =
+    ["a", "<", ">", "&", "\"", "'", " ", "\n", "\r", "\t", "]", "\u{10000}", "\u{85}", "\u{2028}", "&amp;", "\u{D7FF}", "\u{E000}", "\u{FFFD}", "\u{10FFFF}"];
 const ILLEGAL: [&str; 4] = ["\0", "\u{1}", "\u{fffe}", "\u{ffff}"];
 const PRED_ENDINGS: [&str; 14] = ["#p", "/p", "/1p", "/p.q", "/", "#", ":p", "é", "/p-1", "/_", "#é1", "/a/%41", "?q=p", "/p·"];
 
@@ -243,7 +245,7 @@ pub fn run(tier: Tier) -> Report {
     rep.violations = o.violations;
     rep.caps = o.caps;
     rep.rule = format!(
-        "literal text = every string of length <= {} over [a < > & \" ' space LF CR TAB ] U+10000 U+0085 U+2028 '&amp;'] in plain / language-tagged / datatyped / rdf:XMLLiteral-typed literals; XML-illegal characters (NUL, U+0001, U+FFFE, U+FFFF) in three contexts; predicates (and the same IRIs as subject, object and datatype) over 3 bases x 14 endings (#p /p /1p /p.q / # :p é /p-1 /_ #é1 /a/%41 ?q=p /p·); every graph of 2..{} triples over a 30-triple universe with shared blank nodes; inexpressible triples mixed in; indentation 0..8 (0 plus a rotating value for every case, all nine on a slice); oracle: the serializer fails, or the output is well-formed XML according to an independent recogniser and parses (toolkit parser) to a graph isomorphic to the expressible part, identically for every indentation; graphs with XML-legal text and QName-able predicates must be accepted; non-trivial = output needed escaping, node IDs or xml:lang",
+        "literal text = every string of length <= {} over [a < > & \" ' space LF CR TAB ] U+10000 U+0085 U+2028 '&amp;' U+D7FF U+E000 U+FFFD U+10FFFF] in plain / language-tagged / datatyped / rdf:XMLLiteral-typed literals; XML-illegal characters (NUL, U+0001, U+FFFE, U+FFFF) in three contexts; predicates (and the same IRIs as subject, object and datatype) over 3 bases x 14 endings (#p /p /1p /p.q / # :p é /p-1 /_ #é1 /a/%41 ?q=p /p·); every graph of 2..{} triples over a 30-triple universe with shared blank nodes; inexpressible triples mixed in; indentation 0..8 (0 plus a rotating value for every case, all nine on a slice); oracle: the serializer fails, or the output is well-formed XML according to an independent recogniser and parses (toolkit parser) to a graph isomorphic to the expressible part, identically for every indentation; graphs with XML-legal text and QName-able predicates must be accepted; non-trivial = output needed escaping, node IDs or xml:lang",
         tier.pick(2, 3),
         tier.pick(2, 3)
     );
